@@ -192,6 +192,16 @@ CHECKS['C13'] = dict(
          'One array-size defect (row replaced through an alias) is an open known finding.',
     note='Trusted: vlib/trace.py + vlib/c13_trace.py hooks (values snapshotted at observation), vlib/c13_oracle.py. Callees run untraced but every function is also checked as an entry point. Analysis crashes on accepted programs are counted in their own class.')
 
+CHECKS['C09'] = dict(
+    category='exploration', design_ref='DESIGN.md §3 C09',
+    technique='generated caller/callee chains: differential testing of inline / monomorphize / close / lift_context against the corresponding evaluation of the original',
+    text='Caller/callee chains of depth <=3 (callees with/without their own context, called under nested with-blocks, in loops, comprehensions, conditions, twice in one expression; '
+         'callees mutating list arguments; locals clashing with caller locals and free variables; multi-return callees and calls in while conditions that must be refused) are '
+         'rewritten by inline (where None/index/cursor, recursive or one level, function subsets), monomorphize(ctx[, args]), close and lift_context and compared with the '
+         'original evaluated the corresponding way (inline(f)(a, ctx=c) vs f(a, ctx=c); monomorphize(f, C)(a) vs f(a, ctx=C); close(f) vs f; lift_context(f) vs f) incl. the final '
+         'contents of list arguments. Refusals are counted, not violations.',
+    note='Trusted: interpreter as reference for the original (checked by C04); vlib/difftest.py. args= annotations have no run-time effect in the interpreter, so that class cannot discriminate.')
+
 NOT_YET = {}
 
 
